@@ -32,12 +32,20 @@ Definition s_star : bytes := codes "*".
 (* an item of a request: (config resource type or 0, name) *)
 Definition item := (Z * bytes)%type.
 
+(* how a Fetch request names a topic: by name (all versions) or, from v13, by topic ID with
+   an empty name; [ById None] is an ID the metadata store does not know *)
+Inductive faddr := ByName (n : bytes) | ById (resolved : option bytes).
+
+(* the name handleFetch authorises and reads: the RESOLVED name, never the wire field *)
+Definition fetch_name (a : faddr) : option bytes :=
+  match a with ByName n => Some n | ById r => r end.
+
 Inductive req :=
 | RApiVersions
 | RFindCoordinator
 | RMetadata (topics : list bytes)
 | RProduce (topics : list bytes)
-| RFetch (topics : list bytes)
+| RFetch (topics : list faddr)
 | RJoinGroup (g : bytes) | RSyncGroup (g : bytes) | RHeartbeat (g : bytes) | RLeaveGroup (g : bytes)
 | ROffsetCommit (g : bytes) | ROffsetFetch (g : bytes)
 | RDescribeGroups (gs : list bytes) | RDeleteGroups (gs : list bytes)
@@ -87,7 +95,11 @@ Definition handle (e : env) (p : perm_t) (r : req) : list (item * item_out) :=
                           else if topic_exists e (snd it) then Harmless else Denied TOPIC_AUTHZ))
           (topic_items (filter (fun t => negb (blank e t)) ts))
   | RProduce ts => per_item p AProduce RTopic TOPIC_AUTHZ (topic_items ts)
-  | RFetch ts => per_item p AFetch RTopic TOPIC_AUTHZ (topic_items ts)
+  | RFetch ts =>
+      map (fun a => match fetch_name a with
+                    | Some n => ((0, n), if p AFetch RTopic n then Proceeds else Denied TOPIC_AUTHZ)
+                    | None => ((-1, []), Harmless)        (* UNKNOWN_TOPIC_ID: nothing is read *)
+                    end) ts
   | RJoinGroup g | RSyncGroup g | RHeartbeat g | RLeaveGroup g | ROffsetCommit g =>
       per_item p AGroupWrite RGroup GROUP_AUTHZ [(0, g)]
   | ROffsetFetch g => per_item p AGroupRead RGroup GROUP_AUTHZ [(0, g)]
@@ -113,7 +125,8 @@ Definition required (e : env) (r : req) (it : item) : option (action * resource 
   | RApiVersions | RFindCoordinator => None
   | RMetadata _ => if auto_create e && negb (topic_exists e (snd it)) then Some (AProduce, RTopic, snd it) else None
   | RProduce _ => Some (AProduce, RTopic, snd it)
-  | RFetch _ | ROffsetForLeaderEpoch _ | RListOffsets _ => Some (AFetch, RTopic, snd it)
+  | RFetch _ => if fst it =? -1 then None else Some (AFetch, RTopic, snd it)
+  | ROffsetForLeaderEpoch _ | RListOffsets _ => Some (AFetch, RTopic, snd it)
   | RJoinGroup _ | RSyncGroup _ | RHeartbeat _ | RLeaveGroup _ | ROffsetCommit _ => Some (AGroupWrite, RGroup, snd it)
   | ROffsetFetch _ | RDescribeGroups _ | RListGroups => Some (AGroupRead, RGroup, snd it)
   | RDeleteGroups _ => Some (AGroupAdmin, RGroup, snd it)
@@ -136,29 +149,29 @@ Definition data_items (r : req) (out : list (item * item_out)) : list item :=
 Definition row := (string * list (string * string) * string)%type.
 
 Definition group_write_row (k c : string) : row :=
-  (k, [("allowGroup:ActionGroupWrite", "reject"); ("acquireGroupLease", "reject"); ("etcdAvailable", "reject")], c)%string.
+  (k, [("allowGroup[req.Group]:ActionGroupWrite", "reject"); ("acquireGroupLease", "reject"); ("etcdAvailable", "reject")], c)%string.
 
 Definition expected_rows : list row := [
   ("AlterConfigs", [("allowAdmin", "reject"); ("etcdAvailable", "reject")], "h.store.FetchTopicConfig");
   ("ApiVersions", [], "none");
   ("CreatePartitions", [("allowAdmin", "reject"); ("etcdAvailable", "reject")], "h.store.CreatePartitions");
   ("CreateTopics", [("allowAdmin", "reject"); ("allowAdminAPIs", "reject"); ("etcdAvailable", "reject")], "h.store.CreateTopic");
-  ("DeleteGroups", [("allowGroup:ActionGroupAdmin", "filter"); ("etcdAvailable", "reject")], "h.coordinator.DeleteGroups");
+  ("DeleteGroups", [("allowGroup[groupID]:ActionGroupAdmin", "filter"); ("etcdAvailable", "reject")], "h.coordinator.DeleteGroups");
   ("DeleteTopics", [("allowAdmin", "reject"); ("allowAdminAPIs", "reject"); ("etcdAvailable", "reject")], "h.store.DeleteTopic");
-  ("DescribeConfigs", [("allowTopic:ActionFetch", "skip")], "h.store.FetchTopicConfig");
-  ("DescribeGroups", [("allowGroup:ActionGroupRead", "filter"); ("acquireGroupLease", "filter"); ("etcdAvailable", "reject")], "h.coordinator.DescribeGroups");
-  ("Fetch", [("allowTopic:ActionFetch", "skip"); ("s3Health.State:S3StateDegraded|S3StateUnavailable", "skip")], "h.getPartitionLog");
+  ("DescribeConfigs", [("allowTopic[resource.ResourceName]:ActionFetch", "skip")], "h.store.FetchTopicConfig");
+  ("DescribeGroups", [("allowGroup[groupID]:ActionGroupRead", "filter"); ("acquireGroupLease", "filter"); ("etcdAvailable", "reject")], "h.coordinator.DescribeGroups");
+  ("Fetch", [("resolved[topicName]", "pre"); ("allowTopic[topicName]:ActionFetch", "skip"); ("s3Health.State:S3StateDegraded|S3StateUnavailable", "skip")], "h.getPartitionLog");
   ("FindCoordinator", [], "none");
   group_write_row "Heartbeat" "h.coordinator.Heartbeat";
   group_write_row "JoinGroup" "h.coordinator.JoinGroup";
   group_write_row "LeaveGroup" "h.coordinator.LeaveGroup";
-  ("ListGroups", [("allowGroup:ActionGroupRead", "reject"); ("etcdAvailable", "reject")], "h.coordinator.ListGroups");
-  ("ListOffsets", [("allowTopics:ActionFetch", "reject")], "h.getPartitionLog");
-  ("Metadata", [("allowTopic:ActionProduce", "skip")], "h.ensureTopic");
+  ("ListGroups", [("allowGroup[""*""]:ActionGroupRead", "reject"); ("etcdAvailable", "reject")], "h.coordinator.ListGroups");
+  ("ListOffsets", [("allowTopics[topicsFromListOffsets()]:ActionFetch", "reject")], "h.getPartitionLog");
+  ("Metadata", [("allowTopic[name]:ActionProduce", "skip")], "h.ensureTopic");
   group_write_row "OffsetCommit" "h.coordinator.OffsetCommit";
-  ("OffsetFetch", [("allowGroup:ActionGroupRead", "reject"); ("acquireGroupLease", "reject"); ("etcdAvailable", "reject")], "h.coordinator.OffsetFetch");
-  ("OffsetForLeaderEpoch", [("allowTopics:ActionFetch", "reject")], "h.store.NextOffset");
-  ("Produce", [("acquirePartitionLeases", "pre"); ("allowTopic:ActionProduce", "skip"); ("etcdAvailable", "skip"); ("leaseErrors", "skip"); ("s3Health.State!=S3StateHealthy", "skip")], "h.getPartitionLog");
+  ("OffsetFetch", [("allowGroup[req.Group]:ActionGroupRead", "reject"); ("acquireGroupLease", "reject"); ("etcdAvailable", "reject")], "h.coordinator.OffsetFetch");
+  ("OffsetForLeaderEpoch", [("allowTopics[topicsFromOffsetForLeaderEpoch()]:ActionFetch", "reject")], "h.store.NextOffset");
+  ("Produce", [("acquirePartitionLeases", "pre"); ("allowTopic[topic.Topic]:ActionProduce", "skip"); ("etcdAvailable", "skip"); ("leaseErrors", "skip"); ("s3Health.State!=S3StateHealthy", "skip")], "h.getPartitionLog");
   group_write_row "SyncGroup" "h.coordinator.SyncGroup"
 ]%string.
 
